@@ -12,6 +12,7 @@ From Coq Require Import String List ZArith Bool Arith Permutation Sorted.
 From TM Require Import C19.Query C19.Model C19.Proofs C19.SearchModel C19.SearchProofs.
 From TM Require Import C19.BlockModel C19.BlockProofs C19.SearchRangeProofs.
 From TM Require Import C19.PhaseModel C19.PhaseProofs.
+From TM Require Import C19.ServiceModel C19.ServiceProofs.
 Import ListNotations.
 Local Open Scope nat_scope.
 
@@ -273,6 +274,42 @@ Example C19_block_original_search_refuted :
   bsearch_original (brun bnv_hist) q = BOk [2%Z] /\ bsat q bnv_b2 = false /\
   bsearch (brun bnv_hist) q = BOk [].
 Proof. vm_compute. auto. Qed.
+
+(* ------------------------------------------------------------------ the indexer service
+   (state/txindex/indexer_service.go; ServiceModel.v: the loop that takes a header, collects
+   its NumTxs Tx events into batch.Ops[Index], indexes the block events and adds the batch,
+   composed with the two indexer models). *)
+
+(* 9. With terminateOnError = false (the node's setting), after ANY history of well-formed
+   block publications — a header, then its NumTxs Tx events in any order carrying the indices
+   0..NumTxs-1 — of pairwise distinct transactions, and WHATEVER the block indexer answers on
+   the blocks' events (blocks it rejects included): the service is back at the top of its
+   loop; the transaction index holds every key once, a key belongs to a transaction exactly
+   when it is one of that transaction's keys (its tx.height key among them), Get(hash) returns
+   exactly the published transaction with that hash — every published transaction, nothing
+   else; the block index is what BlockerIndexer.Index leaves after the headers in order
+   (theorem 7: exactly the blocks it accepted).  With terminateOnError = true the service
+   stops at the first rejected block (C19_service_terminate_on_error_stops): nothing is
+   claimed from there on. *)
+Theorem C19_service_indexes_every_tx : forall ps : list pblock,
+  Forall wf_pblock ps ->
+  Distinct (all_txs ps) ->
+  let s := svc_run false (events_all ps) in
+  sv_run s = true /\ sv_blocked s = false /\ sv_crashed s = false /\ sv_cur s = None /\
+  NoDup (map fst (s_idx (sv_tx s))) /\ NoDup (map fst (s_prim (sv_tx s))) /\
+  (forall k id, In (k, id) (s_idx (sv_tx s)) <->
+     exists t, In t (all_txs ps) /\ id = t_hash t /\ In k (keys_of t)) /\
+  (forall id t, get (sv_tx s) id = Some t <-> In t (all_txs ps) /\ t_hash t = id) /\
+  sv_blk s = brun (map fst ps).
+Proof. exact ServiceProofs.C19_service_indexes_every_tx. Qed.
+Print Assumptions C19_service_indexes_every_tx.
+
+Example C19_service_indexes_every_tx_nonvacuous :
+  Forall wf_pblock svx_ps /\ Distinct (all_txs svx_ps) /\ index_ok svx_b2 = false /\
+  let s := svc_run false (events_all svx_ps) in
+  get (sv_tx s) "3"%string = Some svx_t3 /\ get (sv_tx s) "4"%string = Some svx_t4 /\
+  bhas (sv_blk s) 1%Z = true /\ bhas (sv_blk s) 2%Z = false /\ bhas (sv_blk s) 3%Z = true.
+Proof. pose proof ServiceProofs.C19_service_indexes_every_tx_nonvacuous as H. cbv zeta in *. intuition. Qed.
 
 (* ------------------------------------------------------------------ non-vacuity *)
 
